@@ -33,6 +33,7 @@ def PopperOk (r : Ring) : PoView → Prop
   | none => True
   | some .ldHead => True
   | some (.ldTail hl) => hl = r.head
+  | some .retNone => True
   | some (.read hl) => hl = r.head ∧ r.hcount < r.tcount
   | some (.stHead hl v) => hl = r.head ∧ r.hcount < r.tcount ∧ r.log[r.hcount]? = some v
 
@@ -158,6 +159,7 @@ theorem RingInv.push_write {r tl v po} (h : RingInv r (some (.write tl, v)) po) 
       cases p with
       | ldHead => exact id
       | ldTail hl => exact id
+      | retNone => exact id
       | read hl => exact id
       | stHead hl v' =>
         simp only [PopperOk, Ring.writeSlot]
@@ -183,6 +185,7 @@ theorem RingInv.push_stTail {r tl v po} (h : RingInv r (some (.stTail tl, v)) po
       cases p with
       | ldHead => exact id
       | ldTail hl => exact id
+      | retNone => exact id
       | read hl => simp only [PopperOk, Ring.storeTail, spscPushInc_val, wadd_one]; rintro ⟨a, b⟩; exact ⟨a, by omega⟩
       | stHead hl v' => simp only [PopperOk, Ring.storeTail, spscPushInc_val, wadd_one]; rintro ⟨a, b, c⟩; exact ⟨a, by omega, c⟩
 
@@ -214,6 +217,11 @@ theorem pop_empty_iff {r pu hl} (h : RingInv r pu (some (.ldTail hl))) :
   have hh : hl = r.head := h.popper
   rw [hh, h.headEq, h.tailEq]
   exact wrapped_eq_iff h.le1 (by have := h.le2; have := h.capLt; omega)
+
+theorem RingInv.pop_ldTail_none {r pu hl} (h : RingInv r pu (some (.ldTail hl))) :
+    RingInv r pu (some .retNone) :=
+  { h with slotsInit := by simpa [pendR] using h.slotsInit,
+           slotsFree := by simpa [pendR] using h.slotsFree, popper := trivial }
 
 theorem RingInv.pop_ldTail_cont {r pu hl} (h : RingInv r pu (some (.ldTail hl)))
     (hne : ¬ hl = r.tail) : RingInv r pu (some (.read hl)) := by
@@ -333,30 +341,36 @@ theorem pushStep_inv {r v p po} (h : RingInv r (some (p, v)) po) :
     · simp only [pushStep]; exact h.push_stTail
 
 theorem popStep_inv {r pu p} (h : RingInv r pu (some p)) :
-    (∀ p', (popStep r p).2 = .cont p' → RingInv (popStep r p).1 pu (some p')) ∧
-    ((popStep r p).2 = .empty → RingInv (popStep r p).1 pu none ∧ (popStep r p).1 = r ∧ r.hcount = r.tcount) ∧
+    (∀ p', (popStep r p).2 = .cont p' → RingInv (popStep r p).1 pu (some p') ∧
+        (p' = .retNone → (popStep r p).1 = r ∧ r.hcount = r.tcount)) ∧
+    ((popStep r p).2 = .empty → RingInv (popStep r p).1 pu none ∧ (popStep r p).1 = r ∧ p = .retNone) ∧
     (∀ x, (popStep r p).2 = .done x → RingInv (popStep r p).1 pu none ∧ r.log[r.hcount]? = some x) := by
   cases p with
   | ldHead =>
     refine ⟨fun p' hp => ?_, fun hp => ?_, fun x hp => ?_⟩
-    · simp only [popStep, PopOut.cont.injEq] at hp ⊢; subst hp; exact h.pop_ldHead
+    · simp only [popStep, PopOut.cont.injEq] at hp ⊢; subst hp; exact ⟨h.pop_ldHead, by simp⟩
     · simp [popStep] at hp
     · simp [popStep] at hp
   | ldTail hl =>
     by_cases he : hl = r.tail
-    · refine ⟨fun p' hp => ?_, fun _ => ?_, fun x hp => ?_⟩
+    · refine ⟨fun p' hp => ?_, fun hp => ?_, fun x hp => ?_⟩
+      · simp only [popStep, he, if_true, PopOut.cont.injEq] at hp ⊢; subst hp
+        exact ⟨h.pop_ldTail_none, fun _ => ⟨trivial, (pop_empty_iff h).1 he⟩⟩
       · simp [popStep, he] at hp
-      · simp only [popStep, he, if_true]
-        exact ⟨h.abandonPop (by intro a b; simp), trivial, (pop_empty_iff h).1 he⟩
       · simp [popStep, he] at hp
     · refine ⟨fun p' hp => ?_, fun hp => ?_, fun x hp => ?_⟩
       · simp only [popStep, he, if_false, PopOut.cont.injEq] at hp ⊢; subst hp
-        exact h.pop_ldTail_cont he
+        exact ⟨h.pop_ldTail_cont he, by simp⟩
       · simp [popStep, he] at hp
       · simp [popStep, he] at hp
+  | retNone =>
+    refine ⟨fun p' hp => ?_, fun _ => ?_, fun x hp => ?_⟩
+    · simp [popStep] at hp
+    · simp only [popStep]; exact ⟨h.abandonPop (by intro a b; simp), trivial, trivial⟩
+    · simp [popStep] at hp
   | read hl =>
     refine ⟨fun p' hp => ?_, fun hp => ?_, fun x hp => ?_⟩
-    · simp only [popStep, PopOut.cont.injEq] at hp ⊢; subst hp; exact h.pop_read
+    · simp only [popStep, PopOut.cont.injEq] at hp ⊢; subst hp; exact ⟨h.pop_read, by simp⟩
     · simp [popStep] at hp
     · simp [popStep] at hp
   | stHead hl v =>
@@ -427,7 +441,7 @@ theorem rstep_inv (s : RSys) (l : RLabel) (h : RingInv s.ring s.pu s.po) :
       rw [hpo] at h
       obtain ⟨h1, h2, h3⟩ := popStep_inv h
       split
-      · rename_i r p' heq; have := h1 p' (by rw [heq]); rw [heq] at this; exact this
+      · rename_i r p' heq; have := (h1 p' (by rw [heq])).1; rw [heq] at this; exact this
       · rename_i r o hne heq
         cases o with
         | cont p' => exact absurd rfl (hne p')
